@@ -1,0 +1,15 @@
+//go:build verif
+
+package pow
+
+import "github.com/iotaledger/iota.go/consts"
+
+// Verification hooks: aliases of unexported functions, compiled only with -tags verif.
+
+// VerifCheckStateTrits is checkStateTrits.
+func VerifCheckStateTrits(l, h *[consts.HashTrinarySize]uint, n uint) int {
+	return checkStateTrits(l, h, n)
+}
+
+// VerifTrailingZeros is trailingZeros.
+func VerifTrailingZeros(powDigest []byte, nonce uint64) int { return trailingZeros(powDigest, nonce) }
